@@ -263,7 +263,7 @@ func streamText(c *ctx) {
 		}
 	}
 	// --- PIN
-	for _, s := range []string{"", "0", "1", "000000", "000012", "999999", "1000000", "0999999", "12345a", "-1", " 1", "1 ", "１２"} {
+	for _, s := range []string{"", "0", "1", "000000", "000012", "999999", "1000000", "0999999", "0000001", "0000000", "0123456", "00000007531", "12345a", "-1", "+1234", " 1", "1 ", "１２"} {
 		emit("pin-json", s, "pin/boundary")
 	}
 	for i := 0; i < N/4; i++ {
